@@ -389,8 +389,11 @@ func (obj *Array) LoadForm() Object {
 		List{quoteSymbol, dims},
 		Symbol(":element-type"),
 		et,
-		Symbol(":initial-contents"),
-		List{quoteSymbol, obj.AsList()},
+	}
+	if 0 < len(obj.elements) {
+		// The contents are built and not quoted since an element does not have
+		// to be a literal, it can be any object with a load form.
+		form = append(form, Symbol(":initial-contents"), obj.AsList().LoadForm())
 	}
 	if obj.adjustable {
 		form = append(form, Symbol(":adjustable"), True)
